@@ -908,11 +908,13 @@ def enable_eom_ensures(c):
         ("block-stores-the-setpoint", z3.And(eb_rabi(blk) == T(c.amp_on), eb_don(blk) == T(c.detuning_on), eb_det_off(blk) == det_off)),
         ("earlier-blocks-kept", Q([I], lambda i: (z3.And(0 <= i, i < e0), eb_at(c.new, cs, i) == eb_at(c.old, cs, i)), pats=lambda i: [eb_at(c.new, cs, i)])),
         ("in-eom-mode-afterwards", in_eom(c.new, cs)),
+        ("last-slot-keeps-the-targets", s_targets(last1) == s_targets(last0)),
         ("no-buffer-when-skipped-or-empty", z3.Implies(no_buffer, n1 == n0)),
         ("buffer-of-configured-length", z3.Implies(z3.Not(no_buffer), z3.And(
             n1 >= n0 + 1, n1 <= n0 + 2, s_ti(last1) == s_tf(cs_at(c.new, cs, n1 - 2)), buf >= EOMBUF(ch), buf >= min_dur(ch), buf < z3.If(EOMBUF(ch) >= min_dur(ch), EOMBUF(ch), min_dur(ch)) + clock(ch),
             z3.If(det_off != 0, z3.And(s_kind(last1) == PULSE, IS_DETUNED_DELAY(s_pulse(last1)), CONST_DET(s_pulse(last1)) == det_off), s_kind(last1) == DELAY)))),
         ("buffer-after-fall", z3.Implies(z3.And(z3.Not(no_buffer), z3.Not(T(c._skip_wait_for_fall))), at_rest_before_last(c, cs))),
+        ("no-fall-wait-when-skipped", z3.Implies(z3.And(z3.Not(no_buffer), T(c._skip_wait_for_fall)), n1 == n0 + 1)),
         ("within-max-sequence-duration", MAXD(c.new, T(c.self), cs)),
     ] + prefix(c, cs) + [(f"INV.{nm}", cl) for nm, cl in INV(c.new, cs)] + [(f"EOMINV.{nm}", cl) for nm, cl in EOMINV(c.new, cs, split=[e0])]
 
@@ -964,6 +966,7 @@ def disable_eom_ensures(c):
         ("blocks-kept", Q([I], lambda i: (z3.And(0 <= i, i < e0), eb_at(c.new, cs, i) == eb_at(c.old, cs, i)), pats=lambda i: [eb_at(c.new, cs, i)])),
         ("closes-last-block-at-channel-end", z3.And(z3.Not(eb_tf_none(c.new, blk)), eb_tf(c.new, blk) == s_tf(last0))),
         ("not-in-eom-afterwards", z3.Not(in_eom(c.new, cs))),
+        ("last-slot-keeps-the-targets", s_targets(last1) == s_targets(last0)),
         ("no-buffer-when-skipped", z3.Implies(T(c._skip_buffer), n1 == n0)),
         ("custom-buffer", z3.Implies(z3.And(z3.Not(T(c._skip_buffer)), custom), z3.And(
             n1 == n0 + 1, s_kind(last1) == DELAY, buf >= EOMBUF(ch), buf >= min_dur(ch), buf < z3.If(EOMBUF(ch) >= min_dur(ch), EOMBUF(ch), min_dur(ch)) + clock(ch)))),
@@ -980,6 +983,7 @@ contract(SF, "_Schedule.disable_eom", props=("C15", "C02"),
          spec_defs=lambda c: [lpsi_def(cs_arr(c.old, S(c)), cs_len(c.old, S(c)), z3.BoolVal(False))],
          raises={"ValueError": ("only-if", lambda c: z3.Not(max_dur_none(cs_chan(S(c))))),
                  "RuntimeError": ("only-if", lambda c: z3.Not(sch_maxdur_none(T(c.self))))},
-         modifies={SLOTS: lambda c: [S(c)], "_EOMSettings.tf": lambda c: [eb_at(c.old, S(c), eb_len(c.old, S(c)) - 1)]},
+         modifies={SLOTS: lambda c: (lambda r: z3.And(r == S(c), z3.Not(T(c._skip_buffer)))),     # (no slot is written when the buffer is skipped)
+                   "_EOMSettings.tf": lambda c: [eb_at(c.old, S(c), eb_len(c.old, S(c)) - 1)]},
          exc_safe=False,
          )
